@@ -180,6 +180,8 @@ for _pid in ("C04", "C14", "C15"):
     PROPS[_pid]["theorem_modules"] = PROPS[_pid]["theorem_modules"] + ["DecProofs.Properties.C14GenTextGlue"]
 for _pid in ("C04", "C14"):
     PROPS[_pid]["static_modules"] = PROPS[_pid]["static_modules"] + ["DecProofs.Static.Translated3"]
+PROPS["C05"]["theorem_modules"] = PROPS["C05"]["theorem_modules"] + ["DecProofs.Properties.C14GenTextGlue"]
+PROPS["C05"]["static_modules"] = PROPS["C05"]["static_modules"] + ["DecProofs.Static.Translated3"]
 
 # secondary build configuration of C02 (thorough tier): the tininess-after-rounding cargo feature
 PROPS["C02"]["feature_configs"] = [{"feature": "tiny_after", "judge_tiny_after": True}]
